@@ -491,6 +491,47 @@ func (ex *Executor) recordViolationAt(st *State, label, where string, stack []st
 	ex.Violations = append(ex.Violations, v)
 }
 
+const hashPrime = 9920624304325388887
+
+// ufAxioms returns, for every application of the uninterpreted multiplication,
+// the equation that gives it its real meaning.
+func (ex *Executor) ufAxioms() []*Term {
+	var out []*Term
+	for _, a := range ex.tt.ufApps {
+		out = append(out, ex.tt.Eq(a, ex.tt.mk(OpMul, a.w, 0, "", a.a[0], ex.tt.Const(a.w, hashPrime), nil)))
+	}
+	return out
+}
+
+// realModel turns a model of pc ∧ bad found under the uninterpreted hash
+// multiplication into one under the real multiplication (CEGAR step). ok=false:
+// the violation is spurious (or the solver gave up, which is recorded).
+func (ex *Executor) realModel(st *State, bad *Term, m *Model) (*Model, bool) {
+	if !ex.opt.UFMul || len(ex.tt.ufApps) == 0 {
+		return m, true
+	}
+	consistent := true
+	for _, a := range ex.tt.ufApps {
+		if m.Eval(a) != (m.Eval(a.a[0])*hashPrime)&maskw(a.w) {
+			consistent = false
+			break
+		}
+	}
+	if consistent {
+		return m, true
+	}
+	q := append(append([]*Term(nil), st.pc...), bad)
+	q = append(q, ex.ufAxioms()...)
+	switch ex.check("refine", q) {
+	case Sat:
+		return ex.sol.GetModel(), true
+	case Unsat:
+		return nil, false
+	}
+	ex.inconclusive("solver unknown while refining a counterexample with the real hash multiplication at %s", ex.where(st))
+	return nil, false
+}
+
 // require splits on a runtime check: ok must hold, otherwise the program panics.
 func (ex *Executor) require(st *State, ok *Term, kind string) {
 	ok = ex.simp(st, ok)
@@ -505,7 +546,9 @@ func (ex *Executor) require(st *State, ok *Term, kind string) {
 	notOk := ex.tt.Not(ok)
 	if st.model.Eval(ok) == 0 {
 		// the panic is feasible with the current model
-		ex.recordViolation(st, "panic: "+kind, st.model)
+		if rm, real := ex.realModel(st, notOk, st.model); real {
+			ex.recordViolation(st, "panic: "+kind, rm)
+		}
 		f, m := ex.feasible(st, ok)
 		if !f {
 			ex.PathsPanic++
@@ -519,7 +562,9 @@ func (ex *Executor) require(st *State, ok *Term, kind string) {
 	if !ex.violKeys[key] {
 		f, m := ex.feasible(st, notOk)
 		if f {
-			ex.recordViolation(st, "panic: "+kind, m)
+			if rm, real := ex.realModel(st, notOk, m); real {
+				ex.recordViolation(st, "panic: "+kind, rm)
+			}
 		} else if debugBranch {
 			debugCount["REQ "+ex.where(st)+"  "+ex.tt.String(notOk)]++
 		}
